@@ -84,6 +84,18 @@ func checkFlattenVsRegenerate(s *sState, b []byte) string {
 	if _, err := index.WriteTo(regen, &buf); err != nil {
 		return "serializing the regenerated index failed: " + err.Error()
 	}
+	// regenerating from the whole CARv2 file (the index generator finds the payload by the header) is the same index
+	whole, err := carv2.GenerateIndex(bytes.NewReader(b), opts...)
+	if err != nil {
+		return "regenerating the index from the finished CARv2 file failed: " + err.Error()
+	}
+	var wbuf bytes.Buffer
+	if _, err := index.WriteTo(whole, &wbuf); err != nil {
+		return "serializing the index regenerated from the whole file failed: " + err.Error()
+	}
+	if !bytes.Equal(wbuf.Bytes(), buf.Bytes()) {
+		return fmt.Sprintf("the index regenerated from the whole CARv2 file (%d bytes) differs from the one regenerated from its payload (%d bytes)", wbuf.Len(), buf.Len())
+	}
 	shared := false
 	seen := map[string]bool{}
 	for _, id := range s.Secs {
